@@ -551,3 +551,9 @@ B("C14.bullets", ["C14"], FB, "bounded_bullets", "rows of * o O in ASCII_PROPERT
 B("C14.rounded_corners", ["C14", "C05"], FB, "bounded_rounded_corners", "rows of . , ' ` in ASCII_PROPERTIES + Arc::center",
   "four arcs; every arc end coincides with an end of an adjoining line; the arc's centre lies on the inner side of the outline",
   "2 corner styles x widths 1..8 x heights 1..5 x 2 offsets = 160 outlines with a stub attached", file="map/ascii_map.rs")
+
+B("T8.labels_conserved", ["C04", "C13", "C06"], SPAN, "bounded_labels_conserved",
+  "CellBuffer::get_fragment_spans / Span::endorse / endorse_to_arcs_and_circles / circle_map::endorse_*_span / Contacts::endorse_rects",
+  "whatever endorsement matches (circles, arcs, rects), every label character of the input is shown by exactly one text fragment at its own cell "
+  "and no text appears at a cell without a label",
+  "the 8 bundled diagrams + 22 catalogue drawings x {whole, upper, lower, left part} x 3 offsets x label on the first / last row")
